@@ -124,7 +124,7 @@ def run(ctx):
         if ans is not None and (ans.get("ok") in (None, "nan") or [Fraction(x) for x in ans["ok"]] != want):
             ctx.mismatch("model Ds.MC.run differs from the definition", case, impl=res, model=ans, spec=[str(x) for x in want], failing_input=False,
                          broken="theorems C16_* / corr:Ds.MC.run")
-        if ctx.elapsed() > (100 if q else 900):
+        if ctx.elapsed() > (400 if q else 1800):
             break
     return ctx.finish("proof", "C16_keep_nonempty/_exact, C16_defined, C16_no_trunc, C16_trunc_sound, C16_trunc_zero: for every clock history, iteration count and game "
                       "the modelled estimate is the average over a non-empty prefix of completed permutations and the truncation counter invariant holds. This run tied "
